@@ -472,8 +472,12 @@ def oracle(case, out):
             elif x == "fail":
                 if not r.get("r", "").startswith("err:"):
                     v("disagree", f"well-formed transcript without a common name: we report {r.get('r')}", i)
-            if r.get("r", "").startswith("ok:") and unhx(r["r"][3:]) not in unhl(a.get("protos", "-")):
-                v("disagree", f"reported a protocol that was never offered: {r.get('r')}", i)
+            if r.get("r", "").startswith("ok:"):
+                name = unhx(r["r"][3:])
+                if name not in unhl(a.get("protos", "-")):
+                    v("disagree", f"reported a protocol that was never offered: {r.get('r')}", i)
+                elif frame(name + b"\n") not in unhx(a.get("peer", "-")):
+                    v("disagree", f"reported {r.get('r')} although the peer never sent that name", i)
         elif t[0] == "wpair":
             main, fb, sup = unhl(a["main"]), unhl(a.get("fb", "-")), unhl(a.get("sup", "-"))
             names = main + fb
